@@ -122,6 +122,20 @@ def execute(spec):
         e2 = copy.deepcopy(e)
         algs = [A(v) if v in A._value2member_map_ else v for v in e2["algs"]]
         roots = {AttestationFormat(k): list(v) for k, v in (e2.get("roots") or {}).items()}
+        # the RP's trust-anchor mapping in the shapes an RP may hold it: a plain dict, an OrderedDict, a defaultdict(list) -
+        # and with an entry for some *other* format, so that the lookup for this response's format misses
+        execute.n = getattr(execute, "n", 0) + 1
+        shape = execute.n % 4
+        if shape in (1, 2, 3):
+            other = AttestationFormat.TPM if AttestationFormat.TPM not in roots else AttestationFormat.APPLE
+            if other not in roots:
+                roots[other] = [UNRELATED_ROOT_PEM]
+        if shape == 2:
+            import collections
+            roots = collections.defaultdict(list, roots)
+        elif shape == 3:
+            import collections
+            roots = collections.OrderedDict(roots)
         held = {"origin": e2["origin"], "algs": algs, "roots": roots}
         before = copy.deepcopy(held)
         cred = cases.reg_record(c)
@@ -135,6 +149,16 @@ def execute(spec):
         return strip(out), raw(out), None, None
     out = corr.code_outcome(lambda: _opts.call_gen_auth(x), safe(_opts.canon_auth))
     return strip(out), raw(out), None, None
+
+
+def _unrelated_root():
+    from ..sim import ca, keys
+    from cryptography.hazmat.primitives import serialization
+    k = keys.get("p384", 2)
+    return ca.make_cert("Sim Unrelated Root For Another Format", None, k, k.public_key(), ca=True).public_bytes(serialization.Encoding.PEM)
+
+
+UNRELATED_ROOT_PEM = _unrelated_root()
 
 
 def safe(canon):
